@@ -81,7 +81,7 @@ def run(cx):
                 # tolerance stored is the parameter
                 cx.expect('EXPR', f'{C}::from_points:tol', fl.get('tol'), '(param tol)', 'the stored tolerance is the construction tolerance', where=s)
                 # accumulator
-                inits, elems = cx.pushes(b, fl.get('lengths'))
+                inits, elems = cx.pushes_through(b, fl.get('lengths'))       # built in place, or by a helper that returns it
                 ok_init = inits == [('veclit', ('agg', 'array', ('0', ('const', 0.0))))]
                 cx.ob('CONSTRUCT', f'{C}::from_points:lengths:init', ok_init, 'lengths starts as the literal [0.0]', where=s, found='; '.join(show(i) for i in inits))
                 ok_el = len(elems) == 1 and elems[0][0] == 'Vec::push'
